@@ -291,7 +291,7 @@ int main(int argc, char **argv)
       /* spf>=2 default-limit look-ups may never return on the unrepaired library (C19): keep to explicit, known ends */
       gd_off64_t nfr = gd_nframes64(C); unsigned sp = gd_spf(C, f);
       (void)X->NFrames(); (void)X->SamplesPerFrame(f);   /* keep the two handles' histories identical */
-      if (b && nfr >= b + 1 && sp == 1)
+      if (b && nfr >= b + 3 && sp == 1)
         BOTH(S("FrameNum ") + f, dbl(X->FrameNum(f, v, a, b)), dbl(gd_framenum_subset64(C, f, v, a, b)));
     }
     if (rnd(3) == 0) {
@@ -365,19 +365,21 @@ int main(int argc, char **argv)
     if (F) {
       { char *pc = NULL, *sc = NULL;
 #define CAFF() (gd_fragment_affixes(C, n - 2, &pc, &sc) < 0 ? S("(err)") : (str(pc) + str(sc)))
-        S x1 = num(F->SetPrefix("Q_")); x1 += str(F->Prefix()) + str(F->Suffix());
-        S c1 = num(gd_alter_affixes(C, n - 2, "Q_", "_S")); c1 += CAFF(); free(pc); free(sc);
-        BOTH("Fragment.SetPrefix", x1, c1);
-        S x2 = num(F->SetSuffix("_T")); x2 += str(F->Prefix()) + str(F->Suffix());
-        S c2 = num(gd_alter_affixes(C, n - 2, "Q_", "_T")); c2 += CAFF(); free(pc); free(sc);
-        BOTH("Fragment.SetSuffix", x2, c2); }
-      { S x = num(F->SetFrameOffset(3, 0)); x += num(F->FrameOffset()); S c = num(gd_alter_frameoffset64(C, 3, n - 2, 0)); c += num(gd_frameoffset64(C, n - 2)); BOTH("Fragment.SetFrameOffset", x, c); }
-      { S x = num(F->SetProtection(GD_PROTECT_DATA)); x += num(F->Protection()); S c = num(gd_alter_protection(C, GD_PROTECT_DATA, n - 2)); c += num(gd_protection(C, n - 2)); BOTH("Fragment.SetProtection", x, c); }
-      { S x = num(F->SetEndianness(GD_BIG_ENDIAN, 0)); x += num(F->Endianness()); S c = num(gd_alter_endianness(C, GD_BIG_ENDIAN, n - 2, 0)); c += num(gd_endianness(C, n - 2)); BOTH("Fragment.SetEndianness", x, c); }
-      { S x = num(F->SetEncoding(TextEncoding, 0)); x += num((unsigned long)F->Encoding()); S c = num(gd_alter_encoding(C, GD_TEXT_ENCODED, n - 2, 0)); c += num(gd_encoding(C, n - 2)); BOTH("Fragment.SetEncoding", x, c); }
+#define XE() (S(" e=") + num(X->Error()))
+#define CE() (S(" e=") + num(gd_error(C)))
+        S x1 = num(F->SetPrefix("Q_")); x1 += XE(); x1 += str(F->Prefix()) + str(F->Suffix());
+        S c1 = num(gd_alter_affixes(C, n - 2, "Q_", "_S")); c1 += CE(); c1 += CAFF(); free(pc); free(sc);
+        cmp("Fragment.SetPrefix", x1, c1);
+        S x2 = num(F->SetSuffix("_T")); x2 += XE(); x2 += str(F->Prefix()) + str(F->Suffix());
+        S c2 = num(gd_alter_affixes(C, n - 2, "Q_", "_T")); c2 += CE(); c2 += CAFF(); free(pc); free(sc);
+        cmp("Fragment.SetSuffix", x2, c2); }
+      { S x = num(F->SetFrameOffset(3, 0)); x += XE(); x += num(F->FrameOffset()); S c = num(gd_alter_frameoffset64(C, 3, n - 2, 0)); c += CE(); c += num(gd_frameoffset64(C, n - 2)); cmp("Fragment.SetFrameOffset", x, c); }
+      { S x = num(F->SetProtection(GD_PROTECT_DATA)); x += XE(); x += num(F->Protection()); S c = num(gd_alter_protection(C, GD_PROTECT_DATA, n - 2)); c += CE(); c += num(gd_protection(C, n - 2)); cmp("Fragment.SetProtection", x, c); }
+      { S x = num(F->SetEndianness(GD_BIG_ENDIAN, 0)); x += XE(); x += num(F->Endianness()); S c = num(gd_alter_endianness(C, GD_BIG_ENDIAN, n - 2, 0)); c += CE(); c += num(gd_endianness(C, n - 2)); cmp("Fragment.SetEndianness", x, c); }
+      { S x = num(F->SetEncoding(TextEncoding, 0)); x += XE(); x += num((unsigned long)F->Encoding()); S c = num(gd_alter_encoding(C, GD_TEXT_ENCODED, n - 2, 0)); c += CE(); c += num(gd_encoding(C, n - 2)); cmp("Fragment.SetEncoding", x, c); }
       { S x = num(F->SetNamespace("nn")); x += str(F->Namespace());
         gd_fragment_namespace(C, n - 2, "nn"); S c = num(gd_error(C)); c += str(gd_fragment_namespace(C, n - 2, NULL));
-        BOTH("Fragment.SetNamespace", x, c); }
+        cmp("Fragment.SetNamespace", x, c); }
       BOTH("Fragment.ReWrite", num(F->ReWrite()), num(gd_rewrite_fragment(C, n - 2)));
       delete F;
     }
@@ -425,7 +427,7 @@ int main(int argc, char **argv)
 #define ALTER(tag, name, XT, xstmt, cstmt) do { XT *e = (XT*)X->Entry(name); gd_entry_t G; memset(&G, 0, sizeof G); \
       if (e && !gd_entry(C, name, &G)) { int _rx = (xstmt); cstmt; int _rc = gd_alter_entry(C, name, &G, 0); gd_free_entry_strings(&G); \
         BOTH(S("set ") + tag, num(_rx), num(_rc)); cmp(S("set ") + tag + " library", centry(X->D, name), centry(C, name)); \
-        cmp(S("set ") + tag + " object", entry_x(e), centry(C, name)); } delete e; } while (0)
+        if (_rx == 0 && _rc == 0) cmp(S("set ") + tag + " object", entry_x(e), centry(C, name)); } delete e; } while (0)
     ALTER("RawEntry::SetSamplesPerFrame", "n_raw", RawEntry, e->SetSamplesPerFrame(4, 0), G.u.raw.spf = 4);
     ALTER("RawEntry::SetType", "n_raw", RawEntry, e->SetType(Int32, 0), G.u.raw.data_type = GD_INT32);
     ALTER("BitEntry::SetFirstBit", "n_bit", BitEntry, e->SetFirstBit(1), G.u.bit.bitnum = 1);
